@@ -140,10 +140,18 @@ pub fn on_read_state(m: &mut Monitors, nodes: &[Node], v: usize, rs: &ReadState,
         return;
     }
     if rs.index < rec.g_issue {
+        let requeued = m.read_released_by_requeued.contains(&rs.request_ctx);
         m.violation(
             "C08",
             "read-index-not-stale",
-            if rec.stale_leader_at_issue { "stale-read-index/superseded-leader".into() } else { "stale-read-index".into() },
+            if requeued {
+                // finding F12: released by old acknowledgements of a duplicated, re-queued request
+                "stale-read-index/released-by-acks-of-requeued-duplicate-request".into()
+            } else if rec.stale_leader_at_issue {
+                "stale-read-index/superseded-leader".into()
+            } else {
+                "stale-read-index".into()
+            },
             format!(
                 "node {}: read issued at step {} when commit index {} had already been reached somewhere was answered with index {}",
                 id, rec.issue_step, rec.g_issue, rs.index
@@ -155,14 +163,51 @@ pub fn on_read_state(m: &mut Monitors, nodes: &[Node], v: usize, rs: &ReadState,
 }
 
 pub fn after_call(
-    _m: &mut Monitors,
-    _nodes: &[Node],
-    _v: usize,
-    _pre: &View,
-    _post: &View,
-    _op: &Op,
+    m: &mut Monitors,
+    nodes: &[Node],
+    v: usize,
+    pre: &View,
+    post: &View,
+    op: &Op,
     _res: &Res,
-    _new_msgs: &[Message],
+    new_msgs: &[Message],
     _step: usize,
 ) {
+    use raft::eraftpb::MessageType;
+    let x = match op {
+        Op::Step(x) => x,
+        _ => return,
+    };
+    match x.get_msg_type() {
+        MessageType::MsgReadIndex => {
+            // how often has this (forwarded) request reached this node? The network may
+            // duplicate it; a second arrival after the first was answered re-queues it.
+            if let Some(e) = x.get_entries().first() {
+                let k = (v, e.get_data().to_vec());
+                *m.read_forward_seen.entry(k).or_insert(0) += 1;
+            }
+        }
+        MessageType::MsgHeartbeatResponse if !x.get_context().is_empty() => {
+            // requests released by this acknowledgement: new local read states and new
+            // MsgReadIndexResp messages
+            let requeued = m.read_forward_seen.get(&(v, x.get_context().to_vec())).cloned().unwrap_or(0) > 1;
+            if !requeued {
+                return;
+            }
+            let raw = nodes[v].raw.as_ref().unwrap();
+            if post.read_states_len > pre.read_states_len {
+                for rs in &raw.raft.read_states[pre.read_states_len..] {
+                    m.read_released_by_requeued.insert(rs.request_ctx.clone());
+                }
+            }
+            for r in new_msgs {
+                if r.get_msg_type() == MessageType::MsgReadIndexResp {
+                    if let Some(e) = r.get_entries().first() {
+                        m.read_released_by_requeued.insert(e.get_data().to_vec());
+                    }
+                }
+            }
+        }
+        _ => {}
+    }
 }
